@@ -25,7 +25,11 @@ EXTENDS Integers, Sequences, FiniteSets, TLC, SequencesExt
 
 Basics == <<"bool", "int", "int8", "int64", "uint8", "uint64",
             "float32", "float64", "complex128", "string">>
-BasicSet == {Basics[i] : i \in DOMAIN Basics}
+\* kinds that have a leaf table and are well-formed but are NOT leaves of TypesUpTo (the enumeration
+\* other engines share stays as it was); their types are enumerated with the extras (MethTypes)
+ExtraBasics == <<"complex64">>
+AllBasics == Basics \o ExtraBasics
+BasicSet == {AllBasics[i] : i \in DOMAIN AllBasics}
 
 Basic(b)            == [k |-> "basic", b |-> b]
 Named(n, u)         == [k |-> "named", n |-> n, u |-> u]
@@ -72,7 +76,7 @@ KeyTypes == <<TInt, TString, NamedString, Array(TInt), KeyStruct>>
 KeyTypeSet == {KeyTypes[i] : i \in DOMAIN KeyTypes}
 
 NamedLeaves == {Named("NI", TInt), NamedString, Named("NF", Basic("float64"))}
-Leaves == {Basic(b) : b \in BasicSet} \cup NamedLeaves
+Leaves == {Basic(Basics[i]) : i \in DOMAIN Basics} \cup NamedLeaves
 
 -----------------------------------------------------------------------------
 (* Structural predicates.                                                  *)
@@ -112,7 +116,7 @@ Nodes(T) ==
 Unclamped(T) == \E X \in Nodes(T) : HasMeth(X) /\ X.meth = "pd"
 HasSlice(T) == \E X \in Nodes(T) : X.k = "slice"
 HasMap(T)   == \E X \in Nodes(T) : X.k = "map"
-FloatKinds  == {"float32", "float64", "complex128"}
+FloatKinds  == {"float32", "float64", "complex64", "complex128"}
 HasFloat(T) == \E X \in Nodes(T) : X.k = "basic" /\ X.b \in FloatKinds
 Allocates(T) == \E X \in Nodes(T) : X.k \in {"ptr", "slice", "map"}
 (* a container whose elements are themselves allocations: sharing possible *)
@@ -274,7 +278,11 @@ ExtMulti ==
                 Struct("S1", "ext", <<Field("a", B("float64")), Field("b", B("int8")), Field("c", B("uint8")), Field("d", B("bool"))>>)}
       all == two \cup three IN
   all \cup {Ptr(t) : t \in all} \cup {Slice(t) : t \in three} \cup {Map(TInt, t) : t \in three}
-ExtraPlain == KXKeyed \cup ExtMulti      \* no user methods; enumerated with the method types (harness: fixed core)
+\* complex64: own template branches in compare and hash (Float32bits of the real and the imaginary part)
+C64Types == LET c == Basic("complex64") IN
+  {c, Ptr(c), Slice(c), Array(c), Map(TInt, c), Struct("S1", "local", <<Field("A", c)>>),
+   Struct("S1", "ext", <<Field("a", c)>>), Struct("S1", "local", <<Field("A", TInt), Field("B", c)>>)}
+ExtraPlain == KXKeyed \cup ExtMulti \cup C64Types      \* no user methods; enumerated with the method types (harness: fixed core)
 
 MethLayer1 == {T \in ConsOver(MethComponents) : NoEmbMeth(T) /\ ~PtrChainToMeth(T)}
 MethTypes(d) ==
